@@ -49,7 +49,11 @@ static bvw st_val_(const unsigned char *p) { uint64_t w[4]; bvw v = 0; int i; me
 
 #ifndef C20_BLIND
 void harness_ecdsa_sign(void) {
-    BEGIN secp256k1_ecdsa_signature o1, o2; uf_sha_cap = 24;   /* one RFC 6979 attempt costs 22 (24 with extra data) compressions; a second attempt needs 34 more: bound = first nonce attempt */
+    BEGIN secp256k1_ecdsa_signature o1, o2; uf_sha_cap = 24; memset(&o1, 0xA5, 64); memset(&o2, 0xA5, 64);
+#ifdef NDATA_NULL
+    in.f1 = NDATA_NULL;
+#endif
+      /* one RFC 6979 attempt costs 22 (24 with extra data) compressions; a second attempt needs 34 more: bound = first nonce attempt */
     r1 = secp256k1_ecdsa_sign(&c1, &o1, in.a32, in.b32, NULL, in.f1 ? NULL : in.c32); BETWEEN
     r2 = secp256k1_ecdsa_sign(&c2, &o2, in.a32, in.b32, NULL, in.f1 ? NULL : in.c32); END("ecdsa_sign")
     SAMEBYTES("ecdsa_sign", &o1, &o2, 64) __CPROVER_assert(!r1, "witness: signing succeeds");
@@ -61,7 +65,7 @@ void harness_ecdsa_verify(void) {
     __CPROVER_assert(!r1, "witness: verification succeeds");
 }
 void harness_schnorr_sign(void) {
-    BEGIN unsigned char o1[64], o2[64]; CANON(*(secp256k1_pubkey *)&in.kp.data[32]);
+    BEGIN unsigned char o1[64], o2[64]; CANON(*(secp256k1_pubkey *)&in.kp.data[32]); memset(o1, 0xA5, 64); memset(o2, 0xA5, 64);
     r1 = secp256k1_schnorrsig_sign32(&c1, o1, in.a32, &in.kp, in.f1 ? NULL : in.c32); BETWEEN
     r2 = secp256k1_schnorrsig_sign32(&c2, o2, in.a32, &in.kp, in.f1 ? NULL : in.c32); END("schnorrsig_sign32")
     SAMEBYTES("schnorrsig_sign32", o1, o2, 64) __CPROVER_assert(!r1, "witness: signing succeeds");
@@ -73,7 +77,7 @@ void harness_schnorr_verify(void) {
     __CPROVER_assert(!r1, "witness: verification succeeds");
 }
 void harness_keygen(void) {
-    BEGIN secp256k1_pubkey o1, o2; secp256k1_keypair k1, k2; int ra, rb;
+    BEGIN secp256k1_pubkey o1, o2; secp256k1_keypair k1, k2; int ra, rb; memset(&o1, 0xA5, 64); memset(&o2, 0xA5, 64); memset(&k1, 0xA5, 96); memset(&k2, 0xA5, 96);
     r1 = secp256k1_ec_pubkey_create(&c1, &o1, in.a32); ra = secp256k1_keypair_create(&c1, &k1, in.a32); BETWEEN
     r2 = secp256k1_ec_pubkey_create(&c2, &o2, in.a32); rb = secp256k1_keypair_create(&c2, &k2, in.a32); END("pubkey_create/keypair_create")
     SAMEBYTES("pubkey_create", &o1, &o2, 64) SAMEBYTES("keypair_create", &k1, &k2, 96) __CPROVER_assert(ra == rb, "keypair_create: same return value");
@@ -88,29 +92,38 @@ void harness_tweaks(void) {
     __CPROVER_assert(ra == rb && rc == rd, "tweaks: same return values"); __CPROVER_assert(!r1, "witness: tweak succeeds");
 }
 void harness_ecdh(void) {
-    BEGIN unsigned char o1[32], o2[32]; CANON(in.pk);
+    BEGIN unsigned char o1[32], o2[32]; CANON(in.pk); memset(o1, 0xA5, 32); memset(o2, 0xA5, 32);
     r1 = secp256k1_ecdh(&c1, o1, &in.pk, in.a32, NULL, NULL); BETWEEN
     r2 = secp256k1_ecdh(&c2, o2, &in.pk, in.a32, NULL, NULL); END("ecdh")
     SAMEBYTES("ecdh", o1, o2, 32) __CPROVER_assert(!r1, "witness: ecdh succeeds");
 }
-void harness_codecs(void) {
-    BEGIN unsigned char o1[80], o2[80], e1[65], e2[65]; size_t l1 = in.len, l2 = in.len, m1 = 65, m2 = 65; secp256k1_ecdsa_signature g1, g2; int ra, rb, rc, rd; CANON(in.pk);
-    __CPROVER_assume(in.len <= 80);
-    r1 = secp256k1_ecdsa_signature_serialize_der(&c1, o1, &l1, &in.sig); ra = secp256k1_ecdsa_signature_parse_der(&c1, &g1, in.buf, in.len);
-    rc = secp256k1_ec_pubkey_serialize(&c1, e1, &m1, &in.pk, in.f1 ? SECP256K1_EC_COMPRESSED : SECP256K1_EC_UNCOMPRESSED); BETWEEN
-    r2 = secp256k1_ecdsa_signature_serialize_der(&c2, o2, &l2, &in.sig); rb = secp256k1_ecdsa_signature_parse_der(&c2, &g2, in.buf, in.len);
-    rd = secp256k1_ec_pubkey_serialize(&c2, e2, &m2, &in.pk, in.f1 ? SECP256K1_EC_COMPRESSED : SECP256K1_EC_UNCOMPRESSED); END("codecs")
-    __CPROVER_assert(l1 == l2 && ra == rb && rc == rd && m1 == m2, "codecs: same lengths / return values");
-    if (r1) { size_t i; for (i = 0; i < 80; i++) if (i < l1) __CPROVER_assert(o1[i] == o2[i], "serialize_der: identical output bytes under both contexts"); }
-    SAMEBYTES("parse_der", &g1, &g2, 64)
-    if (rc) { size_t i; for (i = 0; i < 65; i++) if (i < m1) __CPROVER_assert(e1[i] == e2[i], "pubkey_serialize: identical output bytes under both contexts"); }
-    __CPROVER_assert(!(r1 && ra), "witness: DER serialize and parse succeed");
+void harness_der_serialize(void) {
+    BEGIN unsigned char o1[80], o2[80]; size_t l1 = in.len, l2 = in.len; __CPROVER_assume(in.len <= 80); memset(o1, 0xA5, 80); memset(o2, 0xA5, 80);
+    r1 = secp256k1_ecdsa_signature_serialize_der(&c1, o1, &l1, &in.sig); BETWEEN
+    r2 = secp256k1_ecdsa_signature_serialize_der(&c2, o2, &l2, &in.sig); END("serialize_der")
+    __CPROVER_assert(l1 == l2, "serialize_der: same reported length"); SAMEBYTES("serialize_der", o1, o2, 80) __CPROVER_assert(!r1, "witness: DER serialization succeeds");
+}
+#ifndef DERLEN
+#define DERLEN 24
+#endif
+void harness_der_parse(void) {
+    BEGIN secp256k1_ecdsa_signature g1, g2; unsigned char buf[DERLEN]; size_t len = nondet_size_t(); __CPROVER_assume(len <= DERLEN); memset(&g1, 0xA5, 64); memset(&g2, 0xA5, 64); (void)in;
+    r1 = secp256k1_ecdsa_signature_parse_der(&c1, &g1, buf, len); BETWEEN
+    r2 = secp256k1_ecdsa_signature_parse_der(&c2, &g2, buf, len); END("parse_der")
+    SAMEBYTES("parse_der", &g1, &g2, 64) __CPROVER_assert(!r1, "witness: DER parse succeeds");
+}
+void harness_pubkey_serialize(void) {
+    BEGIN unsigned char e1[65], e2[65]; size_t m1 = in.len, m2 = in.len; CANON(in.pk); memset(e1, 0xA5, 65); memset(e2, 0xA5, 65);
+    __CPROVER_assume(in.len == 33 || in.len == 65);
+    r1 = secp256k1_ec_pubkey_serialize(&c1, e1, &m1, &in.pk, in.f1 ? SECP256K1_EC_COMPRESSED : SECP256K1_EC_UNCOMPRESSED); BETWEEN
+    r2 = secp256k1_ec_pubkey_serialize(&c2, e2, &m2, &in.pk, in.f1 ? SECP256K1_EC_COMPRESSED : SECP256K1_EC_UNCOMPRESSED); END("pubkey_serialize")
+    __CPROVER_assert(m1 == m2, "pubkey_serialize: same length"); SAMEBYTES("pubkey_serialize", e1, e2, 65) __CPROVER_assert(!r1, "witness: serialization succeeds");
 }
 void harness_pedersen(void) {
-    BEGIN secp256k1_pedersen_commitment o1, o2; CANON(in.gen);
+    BEGIN secp256k1_pedersen_commitment o1, o2; CANON(in.gen); memset(&o1, 0xA5, 64); memset(&o2, 0xA5, 64);   /* the object has 31 unused trailing bytes: compare what the call writes */
     r1 = secp256k1_pedersen_commit(&c1, &o1, in.a32, in.v, &in.gen); BETWEEN
     r2 = secp256k1_pedersen_commit(&c2, &o2, in.a32, in.v, &in.gen); END("pedersen_commit")
-    if (r1) SAMEBYTES("pedersen_commit", &o1, &o2, 64) __CPROVER_assert(!r1, "witness: commit succeeds");
+    SAMEBYTES("pedersen_commit", &o1, &o2, 64) __CPROVER_assert(!r1, "witness: commit succeeds");
 }
 void harness_musig_sign(void) {
     BEGIN secp256k1_musig_partial_sig o1, o2; secp256k1_musig_secnonce n1 = in.sn, n2 = in.sn; CANON(*(secp256k1_pubkey *)&in.kp.data[32]); CANON(*(secp256k1_pubkey *)&in.cache.data[4]); CANON(*(secp256k1_pubkey *)&in.cache.data[68]); CANON(*(secp256k1_pubkey *)&in.sn.data[68]);
